@@ -510,6 +510,18 @@ def plain_thread_scenarios(ctx):
     # 1. two independent locks: holding one says nothing about the other
     a, b = RWLock(), RWLock()
     problems = []
+    try:
+        _two_locks(a, b, in_thread, problems)
+    except BaseException as e:      # noqa: BLE001 -- a well-nested use of two independent locks must not raise
+        problems.append(f'well-nested use of two independent lock objects raised {type(e).__name__}: {e}')
+    ctx.case(('two-locks',), True, 'two-locks')
+    if problems:
+        ctx.violation('locks.real/two-lock-objects', problems[0], dict(problems=problems))
+        return
+    _spent_timeouts(ctx, in_thread)
+
+
+def _two_locks(a, b, in_thread, problems):
     a.write.acquire()
     b.read.acquire()                                    # this thread now holds b's read side for real
     if in_thread(lambda: b.write.acquire(blocking=False)) is not False:
@@ -524,10 +536,11 @@ def plain_thread_scenarios(ctx):
         problems.append('a thread holds the write side of lock B (taken inside the read side of lock A); another thread obtained the read side of B')
     b.write.release()
     a.read.release()
-    ctx.case(('two-locks',), True, 'two-locks')
-    if problems:
-        ctx.violation('locks.real/two-lock-objects', problems[0], dict(problems=problems))
-        return
+
+
+def _spent_timeouts(ctx, in_thread):
+    import threading
+    from nobodd.locks import RWLock
     # 2. timed attempts whose budget is already spent: they fail, raise nothing and change nothing
     for label, timeout in (('timeout=0', 0), ('timeout=1e-9', 1e-9)):
         lock = RWLock()
